@@ -65,6 +65,9 @@ let parse st line =
   | ["MKF"; f; c; t; s] -> CMKFun (sfun f c, n t, n s)
   | ["MOP"; form; o; t; s] -> CMOp ((form = "noalias"), sop o, n t, n s)
   | ["MSCAL"; o; t; c] -> CMScal (sop o, n t, z c)
+  | ["MFILL"; id; seed] -> CMFill (n id, n seed)
+  | ["DKA"; t; s] -> CMBlk (None, n t, n s)
+  | ["DKF"; f; c; t; s] -> CMBlk (Some (sfun f c), n t, n s)
   | ["XV"; form; o; t; shape; a; b; c; k] ->
       let size = (match getv st (n t) with VS v -> v.sv_size | VD d -> nat_of_int (List.length d)) in
       CXV ((form = "noalias"), sop o, n t, shape_expr shape a b c k size)
